@@ -3,6 +3,7 @@
      coq/ArgCheckGen.v   the argument tests of p?gssv, ?gstrs, ?gsrfs, ?gscon, ?gsequ, sp_?trsv, sp_?gemv (4 precisions each)
      coq/PivotGen.v      the pivot search and pivot policy of p?gstrf_pivotL (4 precisions)
      coq/UstackGen.v     the two-ended user stack of p?memory.c: ?user_malloc, ?user_free (4 precisions)
+     coq/AllocGen.v      the bump allocators of the factor storage in pmemory.c: Glu_alloc, DynamicSetMap (one file for all precisions)
    The tie theorems (generated definition = hand-written model) live in the hand-written coq/*Tie.v files.
    A piece that cannot be translated is left out of the generated file with the reason in a comment: its tie theorem then
    fails to compile, which the checks report as a broken obligation."""
@@ -315,6 +316,96 @@ def gen_ustack():
     return ok
 
 
+# ---------------------------------------------------------------------------------------------------
+# the bump allocators of the factor storage: Glu_alloc, DynamicSetMap (pmemory.c, one file for all precisions)
+ALLOC_CELLS = ["nextlu", "nextu", "nextl", "nzlumax", "nzumax", "nzlmax"]   # int_t fields of *pxgstrf_shared->Glu: inputs and outputs
+ALLOC_MAP = "map_in_sup"                                                    # int_t *map_in_sup: a mutable array (Z -> Z), input and output
+ALLOC_GUARDS = {"nextu": "ULOCK", "nextl": "LLOCK", "nextlu": "LULOCK"}     # next-pointer -> index of ITS lock in pxgstrf_shared->lu_locks[]
+ALLOC_MEMTYPES = ["LUSUP", "UCOL", "LSUB", "USUB"]
+ALLOC_IGNORE = {"fprintf", "printf", "sprintf", "fflush"}                   # the XPAND_HINT / SUPERLU_ABORT messages
+ALLOC_ABORT = {"superlu_abort_and_exit", "exit", "abort"}                   # never return
+ALLOC_INT = ("int", "long", "long long", "const int", "const long", "const long long", "int_t", "const int_t", "MemType", "const MemType")
+
+
+def gen_alloc():
+    cfile = os.path.join(SRC, "pmemory.c")
+    cellb = ["glu_" + f for f in ALLOC_CELLS]
+    out = ["(* GENERATED on every run by tools/gen_trans.py (translator tools/c2gal.py, clang AST, pthread build, WITHOUT -DSLU_MT_VERIF)",
+           "   from Glu_alloc / DynamicSetMap of %s (one file for all precisions) -- do not edit." % cfile,
+           "   gen_Glu_alloc pnum jcol num mem_type prev0 glu_map %s" % " ".join(cellb),
+           "     = Returned (returned value, *prev_next, map_in_sup, (%s))  |  Aborted" % ", ".join(ALLOC_CELLS),
+           "   prev0 = *prev_next on entry; glu_map = the array pxgstrf_shared->Glu->map_in_sup as a function Z -> Z (a store is C2GalLib.zupd);",
+           "   the glu_* are the int_t fields of *pxgstrf_shared->Glu on entry; the components of the result are the values on return.",
+           "   Aborted = the path ends in a call that never returns (%s: the SUPERLU_ABORT of XPAND_HINT);" % ", ".join(sorted(ALLOC_ABORT)),
+           "   calls of %s are dropped (their arguments have no side effect: checked).  int_t arithmetic is arithmetic in Z." % ", ".join(sorted(ALLOC_IGNORE)),
+           "   Lock discipline, checked by the translator: %s is only touched while pxgstrf_shared->lu_locks[<its lock>] is held"
+           % ", ".join("%s [%s]" % (f, l) for f, l in sorted(ALLOC_GUARDS.items())),
+           "   (pthread_mutex_lock / pthread_mutex_unlock), no lock is taken while one is held, every return happens with no lock held. *)",
+           "Require Import ZArith List Bool.", "From SLU Require Import C2GalLib.", "Local Open Scope Z_scope.", "Local Open Scope bool_scope.", ""]
+    ok = 0
+    enums = {}
+    try:
+        vals = c2gal.int_constants(cfile, ALLOC_MEMTYPES, incdir=SRC)
+        out.append("(* the values of the enumeration MemType as pmemory.c sees them *)")
+        for x in ALLOC_MEMTYPES:
+            out.append("Definition gen_%s : Z := %d." % (x, vals[x]))
+            enums[x] = "gen_%s" % x
+        out.append("")
+    except Unsupported as e:
+        out.append("(* gen_LUSUP .. gen_USUB NOT TRANSLATED: %s *)\n" % str(e).replace("*)", "* )"))
+    for fname, has_prev in (("Glu_alloc", True), ("DynamicSetMap", False)):
+        gname = "gen_" + fname
+        try:
+            fn = c2gal.load_function(cfile, fname, incdir=SRC)
+            params = [c for c in fn.get("inner", []) if c.get("kind") == "ParmVarDecl"]
+            if any("name" not in c for c in params):
+                raise Unsupported("%s has an unnamed parameter" % fname)
+            ty = lambda c: c["type"].get("desugaredQualType", c["type"]["qualType"]).strip()
+            roots = [c["name"] for c in params if c["type"]["qualType"].replace(" ", "") == "pxgstrf_shared_t*"]
+            ints = [c["name"] for c in params if ty(c) in ALLOC_INT]
+            outp = [c["name"] for c in params if ty(c).replace(" ", "") in ("int*", "long*", "longlong*", "int_t*")]
+            if len(roots) != 1 or len(outp) != (1 if has_prev else 0) or len(roots) + len(ints) + len(outp) != len(params):
+                raise Unsupported("%s: parameters are not integers, %sone pxgstrf_shared_t *" % (fname, "one int_t *, " if has_prev else ""))
+            glu = roots[0] + "->Glu"
+            cellp = ["%s->%s" % (glu, f) for f in ALLOC_CELLS]
+            mapp = "%s->%s" % (glu, ALLOC_MAP)
+            inputs = {cp: (b, "Z") for cp, b in zip(cellp, cellb)}
+            inputs[mapp] = ("glu_map", "F")
+            for nm in ints:
+                if nm.startswith("glu_") or nm.startswith("gen_") or nm == "prev0":
+                    raise Unsupported("parameter name %s clashes with the generated binders" % nm)
+                inputs[nm] = (c2gal.gallina_ident(nm), "Z")
+            for nm in outp:
+                inputs["*" + nm] = ("prev0", "Z")
+
+            def result(tr, env, val, fname=fname, outp=outp, mapp=mapp, cellp=cellp):
+                if tr.held(env):
+                    raise Unsupported("%s returns while a lock is held (%s)" % (fname, ", ".join(tr.held(env))))
+                if val is None or val[1] not in ("Z", "B"):
+                    raise Unsupported("%s returns no integer value" % fname)
+                comps = [tr.toZ(val)] + [env["*" + nm][0] for nm in outp] + [env[mapp][0], "(%s)" % ", ".join(env[cp][0] for cp in cellp)]
+                return "Returned (%s)" % ", ".join(comps)
+
+            def final(tr, env, fname=fname):
+                raise Unsupported("%s can reach its end without a return" % fname)
+            cfg = {"inputs": inputs, "cells": set(outp), "roots": set(roots), "pcells": set(cellp), "parrays": {mapp},
+                   "enums": enums, "dup_ifs": True, "on_return": result, "on_abort": lambda tr, env: "Aborted",
+                   "ignore_calls": ALLOC_IGNORE, "abort_calls": ALLOC_ABORT,
+                   "lock": {"acquire": {"pthread_mutex_lock"}, "release": {"pthread_mutex_unlock"}, "object_path": roots[0] + "->lu_locks",
+                            "guards": {"%s->%s" % (glu, f): l for f, l in ALLOC_GUARDS.items()}}}
+            term = c2gal.translate_slice(fn, cfg, final=final)
+            rty = "Z * Z * (Z -> Z)" if has_prev else "Z * (Z -> Z)"
+            out.append("(* %s : %s *)" % (os.path.basename(cfile), fname))
+            out.append("Definition %s (%s : Z)%s (glu_map : Z -> Z) (%s : Z)\n  : outcome (%s * (%s)) :=\n%s.\n"
+                       % (gname, " ".join(c2gal.gallina_ident(nm) for nm in ints), " (prev0 : Z)" if has_prev else "", " ".join(cellb),
+                          rty, " * ".join("Z" for _ in cellb), term))
+            ok += 1
+        except Unsupported as e:
+            out.append("(* %s NOT TRANSLATED: %s *)\n" % (gname, str(e).replace("*)", "* )")))
+    write_if_changed(os.path.join(COQ, "AllocGen.v"), "\n".join(out) + "\n")
+    return ok
+
+
 if __name__ == "__main__":
     n = gen_argcheck()
     print("gen_trans: ArgCheckGen.v %d/28 routines translated" % n)
@@ -322,3 +413,5 @@ if __name__ == "__main__":
     print("gen_trans: PivotGen.v %d/4 routines translated" % n)
     n = gen_ustack()
     print("gen_trans: UstackGen.v %d/8 functions translated" % n)
+    n = gen_alloc()
+    print("gen_trans: AllocGen.v %d/2 functions translated" % n)
